@@ -16,7 +16,8 @@
         (completed with D1).                                                                     *)
 EXTENDS Integers, Sequences, FiniteSets, TLC, Json
 
-CONSTANTS Orders     \* set of permutations of 1..N (oldest -> newest)
+CONSTANTS Orders,    \* set of permutations of 1..N (oldest -> newest)
+          MaxFiles   \* directories with at most MaxFiles entries
 
 \* kind: body | sidecar | temp | other ;  fam: numbered | state | pr34 | json | none ; num: numeric suffix
 Tab == <<
@@ -54,7 +55,7 @@ PickD2(P, o) ==
     ELSE PickD1(P, o)
 Admissible(P, o) == {PickD1(P, o), PickD2(P, o)}
 
-Init == /\ present \in SUBSET (1..N) /\ ord \in Orders
+Init == /\ present \in {P \in SUBSET (1..N) : Cardinality(P) <= MaxFiles} /\ ord \in Orders
         /\ out = Admissible(present, ord)
 Next == FALSE
 Spec == Init /\ [][Next]_vars
